@@ -58,7 +58,7 @@ const c06NVals = 34
 // c06Value: the k-th entry of the dynamic-type catalogue
 func c06Value(k int) any {
 	f := v.Float64("f")
-	s := v.String("s", 2)
+	s := v.String("s", 1+v.Tier()) // one arbitrary byte already gives invalid UTF-8; two in thorough
 	n := v.Int("n")
 	var nilPtr *c06In
 	var nilMap map[string]any
